@@ -124,7 +124,7 @@ class SparseKDE(BaseEstimator):
         self._check_dimension(descriptors)
         self.descriptors = descriptors
         self.weights = weights if weights is not None else np.ones(len(descriptors))
-        self.weights /= np.sum(self.weights)
+        self.weights = self.weights / np.sum(self.weights)
         self.fspread = fspread
         self.fpoints = fpoints
         self.kernel = kernel
